@@ -212,3 +212,98 @@ example : mean 4 (fun i => i) = 3 / 2 ∧ varU 4 (fun i => i) = 5 / 3 ∧ bStar 
   refine ⟨?_, ?_, ?_⟩ <;> decide +kernel
 
 end Rpylib.Stats
+
+namespace Rpylib.Stats
+
+/-! ### any number of controls: coefficients solving the normal equations never increase the sample variance
+
+`helper_compute_coefficients` takes `b* = pinv(Σ_X) Σ_XY` (since /repo b087fd1), the least-squares solution of
+`Σ_X b = Σ_XY`; the covariance vector of a sample always lies in the range of its covariance matrix, so the
+pseudo-inverse solves the system exactly.  That `numpy.linalg.pinv` returns such a solution is checked on the
+implementation by the harness (residual of the normal equations), not proved. -/
+
+/-- the combined control `Z_i = Σ_j b_j X_j(i)` -/
+def combo (k : Nat) (b : Nat → Rat) (x : Nat → Nat → Rat) : Nat → Rat := fun i => sumTo k (fun j => b j * x j i)
+
+theorem mean_add (n : Nat) (f g : Nat → Rat) : mean n (fun i => f i + g i) = mean n f + mean n g := by
+  unfold mean; rw [sumTo_add]; ring
+
+theorem mean_smul (n : Nat) (c : Rat) (f : Nat → Rat) : mean n (fun i => c * f i) = c * mean n f := by
+  unfold mean; rw [sumTo_mul]; ring
+
+theorem covB_add_left (n : Nat) (f g y : Nat → Rat) :
+    covB n (fun i => f i + g i) y = covB n f y + covB n g y := by
+  unfold covB
+  rw [mean_add]
+  have h : (fun i => (f i + g i - (mean n f + mean n g)) * (y i - mean n y))
+      = (fun i => (f i - mean n f) * (y i - mean n y) + (g i - mean n g) * (y i - mean n y)) := by funext i; ring
+  rw [h, sumTo_add]; ring
+
+theorem covB_smul_left (n : Nat) (c : Rat) (f y : Nat → Rat) : covB n (fun i => c * f i) y = c * covB n f y := by
+  unfold covB
+  rw [mean_smul]
+  have h : (fun i => (c * f i - c * mean n f) * (y i - mean n y)) = (fun i => c * ((f i - mean n f) * (y i - mean n y))) := by
+    funext i; ring
+  rw [h, sumTo_mul]; ring
+
+theorem covB_comm (n : Nat) (f g : Nat → Rat) : covB n f g = covB n g f := by
+  unfold covB; congr 1; apply sumTo_congr; intro i _; ring
+
+theorem covB_zero_left (n : Nat) (y : Nat → Rat) : covB n (fun _ => 0) y = 0 := by
+  unfold covB mean; simp [sumTo_const]
+
+/-- covariance is linear in the combined control -/
+theorem covB_combo_left (n k : Nat) (b : Nat → Rat) (x : Nat → Nat → Rat) (y : Nat → Rat) :
+    covB n (combo k b x) y = sumTo k (fun j => b j * covB n (x j) y) := by
+  induction k with
+  | zero =>
+    have : combo 0 b x = fun _ => 0 := by funext i; simp [combo, sumTo_zero]
+    rw [this, covB_zero_left, sumTo_zero]
+  | succ k ih =>
+    have : combo (k + 1) b x = fun i => combo k b x i + b k * x k i := by funext i; simp [combo, sumTo_succ]
+    rw [this, covB_add_left, ih, covB_smul_left, sumTo_succ]
+
+/-- the adjusted sample is `Y − Z + const` -/
+theorem adjustK_eq (k : Nat) (b c : Nat → Rat) (x : Nat → Nat → Rat) (y : Nat → Rat) (i : Nat) :
+    adjustK k b c x y i = y i - combo k b x i + sumTo k (fun j => b j * c j) := by
+  unfold adjustK combo
+  have : (fun j => b j * (x j i - c j)) = (fun j => b j * x j i + (-1) * (b j * c j)) := by funext j; ring
+  rw [this, sumTo_add, sumTo_mul]; ring
+
+theorem varB_shift (n : Nat) (hn : 0 < n) (f : Nat → Rat) (c : Rat) : varB n (fun i => f i + c) = varB n f := by
+  have hn' : (n : Rat) ≠ 0 := by exact_mod_cast hn.ne'
+  have hm : mean n (fun i => f i + c) = mean n f + c := by
+    unfold mean; rw [sumTo_add, sumTo_const]; field_simp
+  unfold varB covB
+  rw [hm]; congr 1; apply sumTo_congr; intro i _; ring
+
+theorem varB_sub (n : Nat) (f g : Nat → Rat) :
+    varB n (fun i => f i - g i) = varB n f - 2 * covB n g f + varB n g := by
+  have h : (fun i => f i - g i) = (fun i => f i + (-1) * g i) := by funext i; ring
+  unfold varB
+  rw [h, covB_add_left, covB_smul_left]
+  rw [covB_comm n f (fun i => f i + (-1) * g i), covB_comm n g (fun i => f i + (-1) * g i)]
+  rw [covB_add_left, covB_add_left, covB_smul_left, covB_smul_left, covB_comm n f g]
+  ring
+
+/-- **k controls**: if the coefficient vector solves the normal equations `Σ_l cov(X_j, X_l) b_l = cov(X_j, Y)` for
+    every control j, the sample variance of the adjusted estimator is `var Y − var(Σ b_j X_j) ≤ var Y`. -/
+theorem cv_var_le_raw_normal_equations (n k : Nat) (hn : 0 < n) (b c : Nat → Rat) (x : Nat → Nat → Rat) (y : Nat → Rat)
+    (hne : ∀ j, j < k → sumTo k (fun l => covB n (x j) (x l) * b l) = covB n (x j) y) :
+    varB n (adjustK k b c x y) = varB n y - varB n (combo k b x) ∧ varB n (adjustK k b c x y) ≤ varB n y := by
+  have hadj : adjustK k b c x y = fun i => (y i - combo k b x i) + sumTo k (fun j => b j * c j) := by
+    funext i; exact adjustK_eq k b c x y i
+  -- cov(Z, Y) = var Z from the normal equations
+  have hzy : covB n (combo k b x) y = varB n (combo k b x) := by
+    unfold varB
+    rw [covB_combo_left, covB_combo_left]
+    apply sumTo_congr; intro j hj
+    rw [covB_comm n (x j) (combo k b x), covB_combo_left, ← hne j hj]
+    congr 1
+    apply sumTo_congr; intro l _
+    rw [covB_comm n (x l) (x j)]; ring
+  have e : varB n (adjustK k b c x y) = varB n y - varB n (combo k b x) := by
+    rw [hadj, varB_shift n hn, varB_sub, hzy]; ring
+  exact ⟨e, by rw [e]; have := varB_nonneg n (combo k b x); linarith⟩
+
+end Rpylib.Stats
